@@ -13,7 +13,7 @@ RULE = ("BFS to closure of (real Packetizer/Depacketizer/PacketFIFO/Arbiter/Disp
 ASSUMPTIONS = [
     "2-state zero-delay FHDL semantics of litex.gen.sim",
     "header layouts from the listed menu (fields of 4/8/16/24 bits, byte and bit offsets, gaps, swap on/off); _lsb/_msb split fields not covered",
-    "data widths 8/16/32, payload 1..3 beats, header field values from a two-pattern alphabet per packet",
+    "data widths 8/16/32 (64/128 with fewer layouts), payload 1..3 beats, header field values from a two-pattern alphabet per packet",
     "PacketFIFO fed packets no longer than its payload depth (longer packets block by design)",
     "Depacketizer fed packets longer than their header (shorter ones are malformed input)",
     "base runs of the unaligned Packetizer: no producer pause inside a packet, packets of >= 2 beats; the excluded behaviours are explored by the '+mid_packet_pause' / '+single_beat_packet' configurations",
@@ -237,6 +237,8 @@ for hname, L, dw, swap, tier in [
     ("x", 1, 8, True, "quick"), ("x", 2, 8, True, "quick"), ("x", 2, 16, True, "quick"), ("x", 1, 16, True, "quick"), ("x", 3, 16, True, "thorough"),
     ("bits", 4, 8, True, "quick"), ("bits", 4, 16, True, "quick"), ("bits", 5, 16, False, "thorough"), ("bits", 4, 32, True, "thorough"),
     ("bits", 5, 32, True, "thorough"),
+    ("ab", 10, 64, True, "quick"), ("ab", 8, 64, True, "thorough"), ("ab", 16, 64, False, "thorough"), ("ab", 19, 64, True, "thorough"),
+    ("ab", 18, 128, True, "thorough"), ("ab", 16, 128, True, "thorough"),
 ]:
     add_framing(hname, L, dw, swap, tier)
 
